@@ -560,6 +560,10 @@ class Fn:
         k = c.get("kind")
         if k == "fn":
             return ("fnref", c["path"])
+        if "promoted" in c and c.get("item"):
+            pf = self.prog.fns.get("%s::{promoted#%d}" % (c["item"], c["promoted"]))
+            if pf is not None and pf is not self:
+                return pf.local_expr(0)
         if k in ("int", "bool", "char", "str", "scalar"):
             return ("const", k, c.get("value"))
         if k == "enum":
@@ -784,7 +788,7 @@ def _pkey(proj):
         elif "as" in p:
             out.append("as " + p["as"])
         elif "idx" in p:
-            out.append("[_%d]" % p["idx"])
+            out.append("[_]")
         elif "ci" in p:
             out.append("[%d]" % p["ci"])
         else:
